@@ -2,7 +2,7 @@ SPECIFICATION Spec
 CONSTANTS
   Anchor = "last"
   Mode = "values"
-  KMaxV = 7
+  KMaxV = 6
   KMaxP = 12
 INVARIANT AtLeastOneTap
 INVARIANT DilAtLeastOne
